@@ -405,4 +405,108 @@ theorem postfixOk_printCat (c : PrintCfg) (hc : c.Sound) : ∀ (ns : List Node) 
     exact postfixOk_append _ _ _ (postfixOk_print c hc n p) (postfixOk_printCat c hc ns)
 end
 
+/-! ### printing is stable: the node read back prints as the same text -/
+
+theorem mkCat_two (xs : List Node) (h : 2 ≤ xs.length) : mkCat xs = .cat "" xs := by
+  match xs, h with
+  | _ :: _ :: _, _ => rfl
+
+theorem mkAlt_two (xs : List Node) (h : 2 ≤ xs.length) : mkAlt xs = .alt "" xs := by
+  match xs, h with
+  | _ :: _ :: _, _ => rfl
+
+theorem normL_length : ∀ ns : List Node, (normL ns).length = ns.length
+  | [] => rfl
+  | _ :: ns => by simp [normL, normL_length ns]
+
+theorem printCat_append (c : PrintCfg) : ∀ a b : List Node,
+    printCat c (a ++ b) = printCat c a ++ printCat c b
+  | [], b => by simp [printCat]
+  | n :: a, b => by simp [printCat, printCat_append c a b]
+
+mutual
+theorem items_length_pos : ∀ n : Node, shaped n = true → 1 ≤ (items n).length
+  | .term _, _ => by simp [items]
+  | .nt _ _ _, _ => by simp [items]
+  | .alt _ _, _ => by simp [items]
+  | .rep _ _ _ _ _, _ => by simp [items]
+  | .cat _ ns, h => by
+    simp only [shaped, Bool.and_eq_true, decide_eq_true_eq] at h
+    have := itemsL_length ns h.2
+    simp only [items]; omega
+theorem itemsL_length : ∀ ns : List Node, shapedL ns = true → ns.length ≤ (itemsL ns).length
+  | [], _ => by simp [itemsL]
+  | n :: ns, h => by
+    simp only [shapedL, Bool.and_eq_true] at h
+    have h1 := items_length_pos n h.1
+    have h2 := itemsL_length ns h.2
+    simp only [itemsL, List.length_append, List.length_cons]; omega
+end
+
+theorem needsParen_norm (c : PrintCfg) : ∀ n : Node, shaped n = true →
+    needsParen c (norm n) = needsParen c n
+  | .term _, _ => rfl
+  | .nt _ _ _, _ => rfl
+  | .rep _ _ _ _ _, _ => rfl
+  | .alt _ ns, h => by
+    simp only [shaped, Bool.and_eq_true, decide_eq_true_eq] at h
+    simp only [norm]; rw [mkAlt_two _ (by rw [normL_length]; exact h.1)]; rfl
+  | .cat _ ns, h => by
+    simp only [shaped, Bool.and_eq_true, decide_eq_true_eq] at h
+    have := itemsL_length ns h.2
+    simp only [norm]; rw [mkCat_two _ (by omega)]; rfl
+
+mutual
+theorem print_norm (c : PrintCfg) : ∀ n : Node, shaped n = true → print c (norm n) = print c n
+  | .term (.lit _), _ => rfl
+  | .term (.regex _), _ => rfl
+  | .nt _ s r, _ => by cases s <;> simp [norm, print, printedRecipient]
+  | .alt _ ns, h => by
+    simp only [shaped, Bool.and_eq_true, decide_eq_true_eq] at h
+    simp only [norm]; rw [mkAlt_two _ (by rw [normL_length]; exact h.1)]
+    simp only [print, printAlts_normL c ns h.2]
+  | .cat _ ns, h => by
+    simp only [shaped, Bool.and_eq_true, decide_eq_true_eq] at h
+    have := itemsL_length ns h.2
+    simp only [norm]; rw [mkCat_two _ (by omega)]
+    simp only [print, printCat_itemsL c ns h.2]
+  | .rep id k n mn mx, h => by
+    simp only [shaped] at h
+    simp only [norm, print, needsParen_norm c n h, print_norm c n h]
+theorem printCat_items (c : PrintCfg) : ∀ n : Node, shaped n = true →
+    printCat c (items n) = print c n
+  | .term (.lit _), _ => by simp [items, printCat, print]
+  | .term (.regex _), _ => by simp [items, printCat, print]
+  | .nt _ s r, _ => by cases s <;> simp [items, printCat, print, printedRecipient]
+  | .alt id ns, h => by
+    have := print_norm c (.alt id ns) h
+    simp only [norm] at this
+    simp only [items, printCat, List.append_nil, this]
+  | .cat _ ns, h => by
+    simp only [shaped, Bool.and_eq_true] at h
+    simp only [items, print, printCat_itemsL c ns h.2]
+  | .rep id k n mn mx, h => by
+    have := print_norm c (.rep id k n mn mx) h
+    simp only [norm] at this
+    simp only [items, printCat, List.append_nil, this]
+theorem printCat_itemsL (c : PrintCfg) : ∀ ns : List Node, shapedL ns = true →
+    printCat c (itemsL ns) = printCat c ns
+  | [], _ => rfl
+  | n :: ns, h => by
+    simp only [shapedL, Bool.and_eq_true] at h
+    simp only [itemsL, printCat_append, printCat, printCat_items c n h.1, printCat_itemsL c ns h.2]
+theorem printAlts_normL (c : PrintCfg) : ∀ ns : List Node, shapedL ns = true →
+    printAlts c (normL ns) = printAlts c ns
+  | [], _ => rfl
+  | n :: ns, h => by
+    simp only [shapedL, Bool.and_eq_true] at h
+    simp only [normL, printAlts, print_norm c n h.1, printAltsTail_normL c ns h.2]
+theorem printAltsTail_normL (c : PrintCfg) : ∀ ns : List Node, shapedL ns = true →
+    printAltsTail c (normL ns) = printAltsTail c ns
+  | [], _ => rfl
+  | n :: ns, h => by
+    simp only [shapedL, Bool.and_eq_true] at h
+    simp only [normL, printAltsTail, print_norm c n h.1, printAltsTail_normL c ns h.2]
+end
+
 end FV
